@@ -877,7 +877,9 @@ orc_program_append_2 (OrcProgram *program, const char *name, unsigned int flags,
     return;
   }
 
-  insn->flags = flags;
+  /* only the prefixes are for callers: the other bits are the compiler's
+   * own bookkeeping (invariant, added by the compiler) */
+  flags &= ORC_INSTRUCTION_FLAG_X2 | ORC_INSTRUCTION_FLAG_X4;
   args[0] = arg0;
   args[1] = arg1;
   args[2] = arg2;
@@ -1066,7 +1068,7 @@ orc_program_append_str_n (OrcProgram *program, const char *name,
     }
   }
 
-  insn->flags = flags;
+  insn->flags = flags & (ORC_INSTRUCTION_FLAG_X2 | ORC_INSTRUCTION_FLAG_X4);
 
   i = 0;
   insn->dest_args[0] = args[i++];
